@@ -289,6 +289,32 @@ def active():
     return ENG is not None
 
 
+PATH_TIMEOUT_S = float(os.environ.get("SYMRUN_PATH_TIMEOUT", "300"))
+
+
+def _arm_path_timer():
+    """a single path that runs away (a loop the code under test never leaves on a symbolic value, a solver call that does not return) must not
+    hang the whole check: SIGALRM turns it into an Inconclusive verdict"""
+    try:
+        import signal
+
+        def onalarm(signum, frame):
+            raise Inconclusive("one path ran for more than %.0f s (runaway loop on a symbolic value or a solver call that does not return)" % PATH_TIMEOUT_S)
+        signal.signal(signal.SIGALRM, onalarm)
+        signal.setitimer(signal.ITIMER_REAL, PATH_TIMEOUT_S, 1.0)     # repeating: an exception raised inside a __del__ is swallowed by the interpreter
+        return True
+    except (ValueError, AttributeError, ImportError):
+        return False        # not in the main thread of this process
+
+
+def _disarm_path_timer():
+    try:
+        import signal
+        signal.setitimer(signal.ITIMER_REAL, 0)
+    except (ValueError, AttributeError, ImportError):
+        pass
+
+
 def explore(fn, stats=None, seed=0, max_paths=None, on_path=None, deadline=None):
     """Run fn() over all feasible paths (DFS over decision prefixes).
 
@@ -304,12 +330,14 @@ def explore(fn, stats=None, seed=0, max_paths=None, on_path=None, deadline=None)
         e = Engine(prefix, stats, seed)
         ENG = e
         try:
+            _arm_path_timer()
             try:
                 res = fn()
             except _Abort:
                 stats.aborted += 1
                 res = _Abort
             finally:
+                _disarm_path_timer()
                 ENG = None
         except Counterexample as c:
             c.engine = e
@@ -320,9 +348,11 @@ def explore(fn, stats=None, seed=0, max_paths=None, on_path=None, deadline=None)
                 stats.outcomes[n] = stats.outcomes.get(n, 0) + 1
             if on_path is not None:
                 ENG = e
+                _arm_path_timer()
                 try:
                     on_path(e, res)
                 finally:
+                    _disarm_path_timer()
                     ENG = None
         tr = e.trail
         for i in range(len(prefix), len(tr)):
